@@ -2022,48 +2022,49 @@ impl Fs {
         let available = (file_len - offset) as usize;
         let to_read = buf.len().min(available);
 
-        // Start with zeros
-        buf[..to_read].fill(0);
-
         // Resolve to the content path (handles hard links and renames)
         let content_path = self.resolve_content_path(path);
 
-        // Copy persisted data in range
-        if let Some(file_data) = self.persisted_files.get(&content_path) {
-            let persisted_end = (file_data.content.len() as u64).min(offset + to_read as u64);
-            if offset < persisted_end {
-                let src_start = offset as usize;
-                let src_end = persisted_end as usize;
-                let dst_len = src_end - src_start;
-                buf[..dst_len].copy_from_slice(&file_data.content[src_start..src_end]);
+        // Materialize the current contents by replaying the pending data
+        // operations over the persisted bytes *in log order*. Order matters:
+        // a pending truncation must discard persisted bytes and earlier
+        // pending writes beyond the new length, so that a later extension or
+        // write past that point reads zeros rather than the stale bytes.
+        let mut content: Vec<u8> = self
+            .persisted_files
+            .get(&content_path)
+            .map(|f| f.content.clone())
+            .unwrap_or_default();
+        for op in &self.pending {
+            match op {
+                PendingOp::Write {
+                    path: p,
+                    offset: write_off,
+                    data,
+                    ..
+                } if p == &content_path || self.path_renamed_to(p, &content_path) => {
+                    let end = *write_off as usize + data.len();
+                    if end > content.len() {
+                        content.resize(end, 0);
+                    }
+                    content[*write_off as usize..end].copy_from_slice(data);
+                }
+                PendingOp::SetLen {
+                    path: p,
+                    len: new_len,
+                    ..
+                } if p == &content_path || self.path_renamed_to(p, &content_path) => {
+                    content.resize(*new_len as usize, 0);
+                }
+                _ => {}
             }
         }
 
-        // Overlay pending writes (need to check the content path)
-        for op in &self.pending {
-            if let PendingOp::Write {
-                path: p,
-                offset: write_off,
-                data,
-                ..
-            } = op
-            {
-                // Check if this write applies to the content path
-                let write_applies = p == &content_path || self.path_renamed_to(p, &content_path);
-                if write_applies {
-                    let write_end = write_off + data.len() as u64;
-                    let read_end = offset + to_read as u64;
-                    if *write_off < read_end && write_end > offset {
-                        let overlap_start = write_off.max(&offset);
-                        let overlap_end = write_end.min(read_end);
-                        let src_offset = (overlap_start - write_off) as usize;
-                        let dst_offset = (overlap_start - offset) as usize;
-                        let len = (overlap_end - overlap_start) as usize;
-                        buf[dst_offset..dst_offset + len]
-                            .copy_from_slice(&data[src_offset..src_offset + len]);
-                    }
-                }
-            }
+        let start = offset as usize;
+        let end = (start + to_read).min(content.len());
+        buf[..to_read].fill(0);
+        if start < end {
+            buf[..end - start].copy_from_slice(&content[start..end]);
         }
 
         to_read
